@@ -29,7 +29,7 @@ func (v *VerifModule) Accept(items *ipdict.IPItems, session *bfe_basic.Session) 
 
 // Request installs the product rule table and runs productBlockHandler on req.
 func (v *VerifModule) Request(table map[string][]VerifRule, req *bfe_basic.Request) (int, *bfe_http.Response, error) {
-	conf := productRuleConf{Version: "verif", Config: ProductRules{}}
+	conf := productRuleConf{Version: VerifVersion, Config: ProductRules{}}
 	for product, rules := range table {
 		list := make(blockRuleList, 0, len(rules))
 		for _, r := range rules {
@@ -58,3 +58,7 @@ func VerifRuleCount(filename string) (map[string]int, error) {
 	}
 	return out, nil
 }
+
+// VerifVersion is the Version string the hook puts into the conf it passes to ruleTable.Update
+// (reload histories use several).
+var VerifVersion = "verif"
